@@ -25,8 +25,10 @@ TRACE = "Trace_Kernels"
 # ---- binding self-tests: a corrupted answer must be rejected
 
 def _first(run, op, pred=lambda e: True):
-    for e in run:
+    """the first suitable event of the run; the run is cut behind it (the self-test needs no more)"""
+    for i, e in enumerate(run):
         if e.get("op") == op and pred(e):
+            del run[i + 1:]
             return e
     return None
 
@@ -185,7 +187,7 @@ def run(ctx):
     ctx.tlc_mc("MC_Kernels", cfg="MC_Kernels_text.cfg", workers=4, timeout=900,
                note="every text of length <= 5 over 8 characters: a valid Base64 / hex text is the encoding of its decoding")
     ctx.tlc_mc("MC_Kernels", cfg="MC_Kernels_bits.cfg", workers=4, timeout=1500,
-               note="256 words: pdep/pext inverse laws, select = k-th one / refuses k >= popcount, reversal involutive")
+               note="81 words (all limb combinations of {0000, 8001, 5A5A}): pdep/pext inverse laws, select = k-th one / refuses k >= popcount, reversal involutive")
     if ctx.thorough:
         ctx.tlc_mc("MC_Kernels", cfg="MC_Kernels_hash.cfg", workers=4, timeout=900, note="prefix word = first absorbed word")
     # --- the real kernels
@@ -194,7 +196,9 @@ def run(ctx):
     files = _files(s)
     if not files:
         raise vlib.ToolError("c14 produced no traces")
-    ctx.validate(TRACE, files, what="kernel answers", max_reject_per_file=40, timeout=1500 if ctx.thorough else 600)
+    # short files: the C1 compiler and two GC threads cost a third less CPU than the defaults
+    jvm = "-Xmx2g" if ctx.thorough else "-Xmx2g -XX:TieredStopAtLevel=1 -XX:ParallelGCThreads=2"
+    ctx.validate(TRACE, files, what="kernel answers", max_reject_per_file=40, timeout=1500 if ctx.thorough else 600, jvm=jvm)
     # --- binding self-tests on subjects the pinned tree gets right
     tests = [
         ("compare", "memops:compare", corrupt_compare_sign, "sign of one compare answer flipped (byte 16 of a mutation batch)"),
@@ -221,8 +225,8 @@ def run(ctx):
         ctx.selftest_corrupt(TRACE, _cut_subject(ctx, p, subject, "st-%s.ndjson" % fn.__name__), fn, what)
     # --- evidence
     cov = ctx.cov
-    cov["evaluations"] = s.get("answers", 0)
-    cov["calls_of_real_code"] = s.get("calls", 0)
+    cov["evaluations"] = s.get("calls", 0)            # executions of the real kernels (every case at every placement)
+    cov["answers_judged"] = s.get("answers", 0)       # individual answers TLC compared with the definition
     cov["batch_events"] = s.get("events", 0)
     cov["runs"] = s.get("runs", 0)
     cov["refused"] = s.get("refused", 0)
@@ -239,21 +243,22 @@ def run(ctx):
         "configuration (forced tier where the API allows: SearchConfig sse42 / scalar, BitOpsConfig software, prefetch off); inputs "
         "are distinct by construction: lengths %s x content class {zeros, ramp, all >= 0x80, random} x ONE MUTATION AT EVERY "
         "POSITION incl. the last byte (compare / equal / find_byte), the needle or a set member planted at every position incl. the "
-        "last and absent (substring / set search, needle lengths 1..40 / sets of 1..33 bytes), every byte string of length <= 4 over "
+        "last and absent (substring / set search, needle lengths %s / sets of 1..33 bytes), every byte string of length <= 4 over "
         "the 12 UTF-8 class representatives bare and of length <= 3 written at offsets %s of a 70-byte ASCII frame, CRC-32C of every "
         "length 0..130 plus incremental splits, Base64 / hex of lengths 0..36, 47..50, 63..66, 95..97, 127..130 plus damaged texts, "
         "bit words (single bits, runs, random) x masks, UTF-8 decoding / UTF-16 transcoding of random well-formed and damaged text, byte "
         "search engine strategies (linear / SIMD / SSE4.2 / rank-select / adaptive) incl. a 256-value histogram of one buffer.  Non-trivial = non-empty input.  Every case is executed at %s placements "
         "(source / destination alignment sampled on {0,1,7,8,15,16,31,32,33,63}, and ending exactly at / starting exactly after a "
-        "PROT_NONE guard page); placements with the same answer share one event (np, pl); calls_of_real_code counts the calls."
+        "PROT_NONE guard page); placements with the same answer share one event (np, pl); evaluations counts the calls of the real code, answers_judged the answers TLC recomputed."
         % (("0..130" if ctx.thorough else "{0-3,7-9,15-17,31-33,47-49,63-66,95-97,127-130}"),
-           ("0,13-15,29-32,45,61-64,66,67" if ctx.thorough else "0,30,62,67"),
+           ("1..65" if ctx.thorough else "1..33"),
+           ("0,13-15,29-32,45,61-64,66,67" if ctx.thorough else "0,30,62,67-69"),
            ("135 (all sampled pairs + guard combinations)" if ctx.thorough else "5-6")))
     for g in ("compare", "findsub", "utf8", "crc"):
         fs = _files(s, g)
         if fs:
             evs = vlib.read_ndjson(fs[0])
-            small = [e for e in evs if e.get("op") not in ("reset",) and len(json.dumps(e)) < 700][:2]
+            small = [e for e in evs if e.get("op") not in ("reset",) and 160 < len(json.dumps(e)) < 900][:2]
             ctx.sample({"trace_file": os.path.relpath(fs[0], vlib.VERIF), "reset": evs[0], "events": small}, limit=8)
     ctx.assumptions += [
         "the oracle is the TLA+ definition (Kernels.tla) evaluated by TLC over the logged inputs; the harness generates inputs, places "
